@@ -739,6 +739,22 @@ X02_ResyncAfter ==
      \/ (accepted /\ AfterOf(E) = (IF pos = {} THEN {} ELSE {MinOf(pos)}))
      \/ Report("X02", "X02_ResyncAfter", <<"asked", txts, "queue", E.queue, E.result>>)
 
+\* X03: children of a kind WITHOUT a rolling strategy are reconciled in the same sync, whatever the rollout of another
+\* kind is doing (spec/MultiKind.tla!MK_NoCrossWait): rolling claims and the health gate concern rolling kinds only
+RespR(c)     == CHOOSE r \in RespInForce(c) : TRUE
+DesKeysR(c)  == { DesKey(c, RespR(c).children[i]) : i \in DOMAIN RespR(c).children }
+DesOfR(c, k) == RespR(c).children[CHOOSE i \in DOMAIN RespR(c).children : DesKey(c, RespR(c).children[i]) = k]
+X03_NonRollingAtOnce ==
+  (IsEv("SyncEnd") /\ IsComposite /\ E.a \in DOMAIN ctx /\ ctx[E.a].active /\ AnyRolling /\ ReachedR(ctx[E.a]) /\ ~Cur(ctx[E.a]).deleting
+     /\ ~("apply" \in DOMAIN cfg /\ cfg.apply = "ssa") /\ ctx[E.a].failedReqs = <<>> /\ E.result = "ok")
+  => LET c == ctx[E.a] IN
+     \A k \in DesKeysR(c) : (MethodOf(k[1]) \in {"Recreate", "InPlace"})
+        => /\ (k \notin OwnedObs(c)) => (Issued(c, "create", k) \/ Report("X03", "X03_NonRollingAtOnce", <<"missing child of a non-rolling kind not created", k>>))
+           /\ (k \in OwnedObs(c) /\ ~c.obs[k].deleting /\ DiffersInOwned(c.obs[k], DesOfR(c, k)))
+                 => \/ (MethodOf(k[1]) = "Recreate" /\ Issued(c, "delete", k))
+                    \/ (MethodOf(k[1]) = "InPlace" /\ Issued(c, "update", k))
+                    \/ Report("X03", "X03_NonRollingAtOnce", <<"differing child of a non-rolling kind not acted on", MethodOf(k[1]), k>>)
+
 \* =======================================================================================
 \* anti-vacuity: how often was each monitor's antecedent true in this trace?  (TLC registers; the
 \* trace spec is deterministic and runs with one worker)
